@@ -29,7 +29,7 @@ def lagrange_rules(ctx, lib: ElemLib, names=None):
         cq = ed.cls.qualname
         st = ed.tables["N"]
         if st[0] != "ok":
-            r_k.fail(cq + "._N", "raises", ed.cls.file, st[2].lineno, f"{name}._N", f"shape-function table raises {st[1]}")
+            r_k.fail(cq + "._N", "raises", ed.cls.file, st[2].lineno, f"{name}._N", f"shape-function table {'has shape' if st[0] == 'shape' else 'raises'} {st[1]}")
             continue
         N, fN = st[1], st[2]
         Ns = [N.data[i] for i in range(ed.nPe)]
@@ -73,6 +73,9 @@ def lagrange_rules(ctx, lib: ElemLib, names=None):
         for tab, k in DERIV_TABLES:
             st = ed.tables[tab]
             r_d.instance(fn=f"{cq}._{tab}")
+            if st[0] == "shape":
+                r_d.fail(cq + f"._{tab}", "rows", st[2].file, st[2].lineno, f"{name}._{tab}", f"the table of order-{k} derivatives has shape {st[1]}, the element has {ed.nPe} basis functions in dimension {ed.dim} (a table built for another element type of the same dimension is handed out)")
+                continue
             if st[0] != "ok":
                 # the table raises (TypeError from _Init_Functions when order >= k)
                 nz = [i for i, Ni in enumerate(Ns) for v in vs if not _dk(Ni, v, k).is_zero()]
@@ -98,6 +101,25 @@ def lagrange_rules(ctx, lib: ElemLib, names=None):
                         line = getattr(lam.node, "lineno", fT.lineno)
                         r_d.fail(cq + f"._{tab}", f"entry[{i}][{c}]", fT.file, line, f"{name}._{tab}",
                                  f"entry [{i}][{c}] is {got!r} but d^{k} N_{i+1}/d{v}^{k} = {want!r} (difference {got - want!r})")
+
+
+def table_order_rule(ctx):
+    """R6.4b: the tables of an element type do not depend on which other types were asked before it.  The 19 element classes
+    are walked a second time IN THE OPPOSITE ORDER in a fresh interpreter (class-level containers are shared objects for the
+    life of an interpreter, as in the program): every table has as many rows as the element has basis functions and the
+    arity of its dimension, and the same entries as in the first walk (lagrange_rules)."""
+    lib2 = ElemLib(ctx.repo)
+    names = list(reversed(lib2.names((1, 2, 3))))
+    r = ctx.rule("R6.4b", "the tables of an element type are the same whichever element types were queried before it (second walk in the opposite order, one shared interpreter)", min_instances=19)
+    for name in names:
+        ed = lib2.get(name)
+        r.instance(fn=ed.cls.qualname)
+        bad = [(tab, st) for tab, st in ed.tables.items() if st[0] == "shape"]
+        if bad:
+            tab, st = bad[0]
+            r.fail(ed.cls.qualname + f"._{tab}", "rows-after-others", st[2].file, st[2].lineno, f"{name}._{tab}", f"asked after {names[:names.index(name)][-3:]}: the table _{tab} has shape {st[1]}, the element has {ed.nPe} basis functions in dimension {ed.dim}: a table built for another element type is handed out")
+        else:
+            r.ok(f"{name}: {len(ed.tables)} tables of its own shape")
 
 
 def _dk(p, v, k):
@@ -271,6 +293,7 @@ def run(ctx):
     ctx.trust("sa/xeval.py (interpreter for the table-building functions: literals, lambdas, np.array/reshape)")
     lib = ElemLib(ctx.repo)
     lagrange_rules(ctx, lib)
+    ctx.attempt(table_order_rule, ctx)
     hermite_rules(ctx)
     accessor_rules(ctx)
     ctx.attempt(evaluation_path_rule, ctx, lib)
